@@ -288,10 +288,22 @@ def check_atan2(item):
     if x == 0 and y == 0:
         if r != {'result': None, 'error': '#DIV/0!'}:
             out.append(('ATAN2(0,0)', None, '#DIV/0!', repr(r)))
+        for xs, ys in (('0', '0'), ('0', 0), (0, '0'), (False, '0.0'), ('-0', 0.0), (False, False), ('0.0', '0'), ('0E0', 0)):
+            r2 = call('ATAN2', xs, ys)
+            if r2 != {'result': None, 'error': '#DIV/0!'}:
+                out.append(('ATAN2(%r,%r): the origin given as numeric text / logicals' % (xs, ys), None, '#DIV/0!', repr(r2)))
         return out
     ref = d_atan2(Decimal(y), Decimal(x))
     if not is_number(r) or not close(r['result'], ref, rel=1e-12, abs_=1e-15):
         out.append(('ATAN2(%r,%r)' % (x, y), None, '%.20g' % ref, repr(r)))
+    # the same point with coordinates given as numeric text / logicals (the two-argument functions coerce too)
+    spell = lambda v: [repr(v), str(int(v)) if float(v) == int(v) and abs(v) < 1e15 else repr(v)] + ([bool(v)] if v in (0, 1) else [])
+    for xs in spell(x)[:2] + spell(x)[2:]:
+        for ys in spell(y)[:1] + spell(y)[2:]:
+            r2 = call('ATAN2', xs, ys)
+            if r2 != r and not (is_number(r) and is_number(r2) and abs(r['result'] - r2['result']) <= 1e-12):
+                out.append(('ATAN2(%r,%r) vs ATAN2(%r,%r): numeric text / logicals' % (xs, ys, x, y), None, repr(r), repr(r2)))
+                return out
     else:
         th = r['result']
         rr = math.hypot(x, y)
@@ -331,6 +343,13 @@ def check_pv(item):
     rate, n, pmt, fv, typ = item
     r = call('PV', rate, n, pmt, fv, typ)
     out = []
+    if rate != 0:
+        # outside the double range (growth factor or present value below 1e-300 / above 1e300) the real value exists but
+        # no double does: overflow and underflow are outside the property ("to within floating-point rounding")
+        g_ = (Decimal(n) * (1 + Decimal(rate)).ln()).exp()
+        pv_ = -(Decimal(pmt) * (1 + Decimal(rate) * Decimal(typ)) * (g_ - 1) / Decimal(rate) + Decimal(fv)) / g_
+        if not (Decimal('1e-300') < g_ < Decimal('1e300')) or abs(pv_) > Decimal('1e300'):
+            return out
     if not is_number(r):
         return [('PV%r' % (item,), None, 'a number', repr(r))]
     pv = Decimal(r['result'])
